@@ -5,7 +5,7 @@ from hndbase import *
 class C08(HndBase):
     id = "C08"
     proof_target = "Props/C08.vo"
-    theorems = ["C08_wrong_hash", "C08_wrong_id", "C08_gate", "C08_actions"]
+    theorems = ["C08_wrong_hash", "C08_wrong_id", "C08_gate", "C08_actions", "C08_gate_opens_only_by_valid_handshake"]
     coq_header = ("From Rdest Require Import Base Consts Wire Manager Handler Corr.Hnd.\nOpen Scope N_scope.\n"
                   "Definition codes := codes08.\n")
     rule = ("message histories on incoming and outgoing connections in which the handshake arrives first, late, twice or "
